@@ -29,8 +29,10 @@ def run(ctx):
     ctx.guarded("R13.1", "conditions", lambda: conditions(ctx))
     ctx.guarded("R13.3", "single-site", lambda: single_site(ctx))
     ctx.guarded("R13.4", "expect", lambda: expect_writers(ctx))
-    from .c08 import read_side_interest
+    from .c08 import read_side_interest, switch_conditions
+    from .c06 import _Remap
     ctx.guarded("R13.5", "server", lambda: read_side_interest(ctx, "R13.5"))
+    ctx.guarded("R13.5", "read-switch", lambda: switch_conditions(_Remap(ctx, "R13.5"), which=("read",)))
 
 
 def is_continue_response(t):
